@@ -191,7 +191,8 @@ def commonise_type(t):
 def commonise_world(w):
     """most generated worlds are moved into the common support (the values of a type do not depend on the wrappers
     rewritten here); `typing.Self` (Converter-only) is respelled as a forward reference by name"""
-    for c in w["classes"]:
+    rewritten = {}          # NamedTuple class -> names of the fields whose type became `int`
+    for ci, c in enumerate(w["classes"]):
         if c.get("recursive") == "self":
             c["recursive"] = "name"
         for f in c["fields"]:
@@ -199,8 +200,28 @@ def commonise_world(w):
             if c["kind"] == "nt" and not (isinstance(f["ty"], str) and f["ty"] in gen.PRIMS):
                 # a BaseConverter supports NamedTuples of primitive fields only (it has no NamedTuple unstructure hook)
                 f["ty"] = "int"
+                rewritten.setdefault(ci, set()).add(f["name"])
                 if f["dflt"] is not None:
                     f["dflt"] = ("c", ("i", 0))
+    if rewritten:
+        # DEFAULTS of other classes were drawn before the rewrite: an instance of a rewritten NamedTuple inside a
+        # default still holds values of the old field types
+        def fix(o):
+            t = o[0]
+            if t == "I":
+                fs = [(n, ("i", 0) if n in rewritten.get(o[1], ()) else fix(v)) for n, v in o[2]]
+                return ("I", o[1], fs)
+            if t in ("l", "t", "q", "S", "F"):
+                return (t, [fix(x) for x in o[1]])
+            if t == "d":
+                return ("d", [(fix(k), fix(v)) for k, v in o[1]])
+            if t == "D":
+                return ("D", o[1], [(fix(k), fix(v)) for k, v in o[2]])
+            return o
+        for c in w["classes"]:
+            for f in c["fields"]:
+                if f["dflt"] is not None:
+                    f["dflt"] = (f["dflt"][0], fix(f["dflt"][1]))
     return w
 
 
@@ -209,7 +230,10 @@ def my_worlds(chk, drv, n_worlds):
     # hierarchies: derived classes and classes with stringified annotations; twin_fields: two attributes of one type,
     # one of them with an attrs converter (the `prefer_attrib_converters` cases below need them to tell the attribute's
     # handler from the type's)
-    G = gen.Gen(chk.rng, unions=True, nt=True, coercible=True, hierarchies=True, twin_fields=True, enum_lits=True)
+    # class_features: class-body syntax, explicit aliases, takes_self factories, eq=False, class-level kw_only, slots
+    # dataclasses, ClassVar / InitVar pseudo-fields, hand-written __init__, validators / post-init checks
+    G = gen.Gen(chk.rng, unions=True, nt=True, coercible=True, hierarchies=True, twin_fields=True, enum_lits=True,
+                class_features=True)
     made = attempts = 0
     while made < n_worlds and attempts < n_worlds * 3:
         attempts += 1
@@ -252,6 +276,13 @@ def hierarchy_values(chk, G, S, w):
 
 def world_features(chk, w):
     for c in w["classes"]:
+        for k, v in (c.get("features") or {}).items():
+            chk.note("class-feature:" + k + ("=" + str(v) if k in ("syntax", "eq") else ""))
+        for f in c["fields"]:
+            if not f.get("inherited"):
+                for k in ("explicit_alias", "takes_self", "validator"):
+                    if f.get(k):
+                        chk.note("class-feature:" + k)
         if c.get("base") is not None:
             chk.note("class:derived" + (":string-annotations" if c.get("strann") else ""))
         elif c.get("strann"):
